@@ -56,6 +56,8 @@ class UnitsAdapter(Adapter):
             x = float(self.rng.uniform(0.05, 3.0))
         elif ak == 'int':
             x = int(self.rng.integers(1, 5))
+        elif self.rng.uniform() < 0.35:
+            x = self.rng.integers(1, 6, 7)          # an array of whole numbers (T* = 1, 2, 3, ...): integer dtype
         else:
             x = self.rng.uniform(0.05, 3.0, 7)
         d = 1.25
